@@ -500,7 +500,7 @@ func storeDomain(lines []string) []string {
 				go func() { eb.PublishContext(in.bus, dctx, mkPub(rec)); close(done) }()
 				select {
 				case <-done:
-				case <-time.After(4 * time.Second):
+				case <-time.After(12 * time.Second):
 					out = append(out, "!pubdeadnotify a persistence error handler that publishes blocks the publish for ever")
 					return out
 				}
